@@ -77,6 +77,72 @@ theorem mapsWF_iff (s : SupSpec) (srcNodes : List Node) :
       intro p hp
       simpa using h c e hm p hp
 
+/-- Complete characterisation of `resolve` (converse of `resolve_final`): a resolution succeeds with
+    node set `N` exactly when the mappings are complete and unique, no active supplementary choice is
+    left without a target, and `N` is the closure under the mapped assignment. -/
+theorem resolve_some_iff (s : SupSpec) (X : List Node) (r : List (Option Nat)) (N : List Node) :
+    resolve s X r = some N ↔
+      initOK s = true ∧ activeResolved s.sup (supAssign s X r) = true ∧
+      N = closure s.sup (supAssign s X r) := by
+  constructor
+  · intro h
+    obtain ⟨h1, h2, h3⟩ := resolve_final s X r N h
+    exact ⟨h3, h2, h1⟩
+  · rintro ⟨h1, h2, rfl⟩
+    simp [resolve, h1, h2]
+
+/-- `resolve` is rejected exactly when the registration is incomplete/duplicated or some active
+    supplementary choice has no target: there is no third outcome. -/
+theorem resolve_none_iff (s : SupSpec) (X : List Node) (r : List (Option Nat)) :
+    resolve s X r = none ↔
+      initOK s = false ∨ activeResolved s.sup (supAssign s X r) = false := by
+  unfold resolve
+  cases h1 : initOK s <;> cases h2 : activeResolved s.sup (supAssign s X r) <;> simp [h2]
+
+private theorem find?_congr' {α} (l : List α) (p q : α → Bool) (h : ∀ x ∈ l, p x = q x) :
+    l.find? p = l.find? q := by
+  induction l with
+  | nil => rfl
+  | cons x xs ih =>
+    have hx := h x (List.mem_cons_self)
+    have ih' := ih (fun y hy => h y (List.mem_cons_of_mem _ hy))
+    simp only [List.find?_cons, hx, ih']
+
+/-- The target of a mapping depends on the source architecture only through what the mapping
+    mentions: the selected option of its source choice, or the existence of its listed nodes. -/
+theorem mapTarget_congr (X X' : List Node) (r r' : List (Option Nat)) (m : SupMapping)
+    (hX : ∀ e, m = .exist e → ∀ p ∈ e.entries, X.contains p.1 = X'.contains p.1)
+    (hr : ∀ o, m = .opt o → r.getD o.srcChoice none = r'.getD o.srcChoice none) :
+    mapTarget X r m = mapTarget X' r' m := by
+  cases m with
+  | opt o => simp only [mapTarget, hr o rfl]
+  | exist e =>
+    have hf : e.entries.find? (fun p => X.contains p.1) = e.entries.find? (fun p => X'.contains p.1) :=
+      find?_congr' _ _ _ (fun p hp => hX e rfl p hp)
+    simp only [mapTarget, hf]
+
+/-- Non-interference: two source architectures that agree on everything the registered mappings
+    mention (selected options of mapped source choices, existence of mapped source nodes) resolve the
+    supplementary graph identically – nothing else of the source leaks into the result. -/
+theorem resolve_depends_only_on_mapped (s : SupSpec) (X X' : List Node) (r r' : List (Option Nat))
+    (hX : ∀ c e, (c, SupMapping.exist e) ∈ s.maps → ∀ p ∈ e.entries, X.contains p.1 = X'.contains p.1)
+    (hr : ∀ c o, (c, SupMapping.opt o) ∈ s.maps → r.getD o.srcChoice none = r'.getD o.srcChoice none) :
+    resolve s X r = resolve s X' r' := by
+  have ha : supAssign s X r = supAssign s X' r' := by
+    unfold supAssign
+    apply List.map_congr_left
+    intro c _
+    cases hf : s.maps.find? (fun m => m.1 == c) with
+    | none => rfl
+    | some m =>
+      have hm : m ∈ s.maps := List.mem_of_find?_eq_some hf
+      rcases m with ⟨c', mp⟩
+      exact mapTarget_congr X X' r r' mp
+        (fun e he => by subst he; exact hX c' e hm)
+        (fun o ho => by subst ho; exact hr c' o hm)
+  unfold resolve
+  rw [ha]
+
 /-! Non-vacuity: outer choice mapped from a source choice, nested choice from node existence. -/
 def exSup : SupSpec :=
   { sup := { n := 6, derives := [], sel := [⟨0, [1, 2]⟩, ⟨2, [3, 4, 5]⟩], start := [0], incompat := [] },
@@ -85,5 +151,7 @@ example : initOK exSup = true := by decide
 example : (resolve exSup [0, 3] [some 1]).map sortNat = some [0, 2, 3] := by decide
 example : (resolve exSup [0, 7] [some 0]).map sortNat = some [0, 1] := by decide
 example : resolve { exSup with maps := exSup.maps.take 1 } [0, 3] [some 1] = none := by decide
+-- non-interference instance: node 9 and a second source choice are not mentioned by any mapping
+example : resolve exSup [0, 3, 9] [some 1, some 4] = resolve exSup [3, 0] [some 1] := by decide
 
 end Adsg.C20
